@@ -223,16 +223,16 @@ def drawRows (maxW maxH : UInt16) : UInt16 → List (List Cell) → List (UInt16
 def containerSize (maxW maxH : UInt16) : UInt16 × UInt16 → List (List Cell) → UInt16 × UInt16
   | sz, [] => sz
   | (sw, sh), l :: ls =>
-    if sh > maxH then (sw, sh)
+    if sh ≥ maxH then (sw, sh)   -- `size.Height >= ctx.Max.Height` (C14's F39 fix)
     else
       let w := sum16 l
       let sw := if sw < w then w else sw
       let sw := if sw > maxW then maxW else sw
       containerSize maxW maxH (sw, sh + 1) ls
 
-/-- The surface after the writes: `WriteCell` ignores `col >= Size.Width || row > Size.Height`
-(an index panic for `row == Size.Height` cannot be reached from the row loop because the loop
-stops after `Size.Height` rows; see notes).  Result: for each row `< height`, the last cell written
+/-- The surface after the writes: `WriteCell` ignores `col >= Size.Width || row >= Size.Height`
+(C14's F42 fix; the row loop itself still runs while `row <= Max.Height`, so one write row may fall
+outside the surface and is dropped).  Result: for each row `< height`, the last cell written
 at every column. -/
 def surfaceRow (width : Nat) (writes : List (UInt16 × Cell)) : List (Option Cell) :=
   (List.range width).map fun col =>
